@@ -9,9 +9,13 @@ Case kinds (`op`):
   sumwin   `_sum_track_signal` on one column (exhaustive small scope + random)
   rect     `_to_pixel_rect`
   units    `KymoTrack.seconds/position/coordinate_idx/duration`
-  edit     programs of interpolate/split/merge/filter/refine on the result of track_greedy or track_lines, also with
-           refinement/interpolation of only SOME of the tracks before a merge (tracks of different provenance in one
-           group): structural invariants and units after every step (oracle only)
+  edit     programs of interpolate/split/merge/filter/refine/regroup on the result of track_greedy or track_lines, also
+           with refinement/interpolation of only SOME of the tracks before a merge (tracks of different provenance in one
+           group) and on groups that hold the tracks of SEVERAL kymographs ("more": further images with their own size,
+           line time and pixel size; every track is judged on its own kymograph): structural invariants, units and
+           photon counts after every step (the counts a track carries from tracking / centroid refinement, for the width
+           stated in that call, and `sample_from_image` with a stated half width), judged by the oracle; a few of the
+           reported counts also go through the model's window sum
   badparam the malformed stream: parameters `track_greedy` must refuse
 """
 import importlib
@@ -71,7 +75,12 @@ RULE = (
     "first/last pixel rows, spots that drift out of the image) with pixel sizes below and above one unit (1.25, 2, 3.3), "
     "used for extra track_greedy cases, for track_lines cases and for programs that refine/interpolate only a subset of "
     "the tracks and then merge (different tracks at any nodes; last point to first point of a later track), split and "
-    "filter; a malformed stream of refused parameters. "
+    "filter; groups holding the tracks of two or three kymographs (own image size, line time and pixel size, same unit; "
+    "concatenated, interleaved or sandwiched) under programs of whole-group and subset centroid refinement (default and "
+    "explicit widths of 3-9 pixels of any of the kymographs), Gaussian refinement, interpolation, filtering, regrouping "
+    "by indexing and +, split/merge within one kymograph; after every step of every program the photon counts that "
+    "tracking or centroid refinement reported for a stated width and sample_from_image with a stated half width 0-4 are "
+    "compared with the window sum on the track's own kymograph; a malformed stream of refused parameters. "
     "Non-trivial: a greedy/link case in which at least one link was made and at least one candidate was left "
     "unlinked (>=2 tracks); a window that is clipped by the image edge or lies strictly inside; a rectangle that "
     "removes some but not all detections."
@@ -138,6 +147,21 @@ def track_width_of(case):
 def half_width_of(case):
     """documented: the width is rounded up to whole pixels, half of that (rounded down) on either side"""
     return int(math.ceil(track_width_of(case) / pixel_size(case))) // 2
+
+
+def envs_of(case):
+    """the source kymographs of an edit case: the case itself and, for groups that mix tracks of several kymographs
+    (`tracks1 + tracks2`), the further ones under "more" (each: image, line_time, pixel_size_um, kbp)"""
+    return [case] + list(case.get("more") or [])
+
+
+def stated_half_width(width, env):
+    """half width (pixels) of the window a stated track width (physical units; None = the documented default, at least
+    three pixels) stands for on the kymograph `env`: rounded up to whole pixels, half of that on either side"""
+    ps = pixel_size(env)
+    if width is None:
+        width = max(_DEFAULT_TW[unit_of(env)], 3 * ps)
+    return int(math.ceil(width / ps)) // 2
 
 
 class Spies:
@@ -228,6 +252,40 @@ def dump_group(group, raw_lines=None):
         if raw_lines is not None:
             d["raw"] = [float(x) for x in raw_lines[i][1]]
         out.append(d)
+    return out
+
+
+def source_of(track, kymos):
+    """index of the kymograph a track was tracked on (a KymoTrack only exposes it as `_kymo`)"""
+    if len(kymos) == 1:
+        return 0
+    k = getattr(track, "_kymo", None)
+    for i, q in enumerate(kymos):
+        if k is q:
+            return i
+    for i, q in enumerate(kymos):  # a copy of the kymograph: same image, line time and pixel size
+        try:
+            if (
+                k.line_time_seconds == q.line_time_seconds
+                and k.pixelsize[0] == q.pixelsize[0]
+                and np.array_equal(k.get_image("red"), q.get_image("red"))
+            ):
+                return i
+        except Exception:
+            pass
+    return -1
+
+
+def dump_edit_group(group, kymos, sample_hw):
+    """dump_group plus, per track, its source kymograph and the image sampled along the track with a stated half width
+    (`KymoTrack.sample_from_image`, pixel origin at the pixel centre)"""
+    out = dump_group(group)
+    for d, t in zip(out, group):
+        d["src"] = source_of(t, kymos)
+        try:
+            d["samp"] = [float(x) for x in t.sample_from_image(sample_hw, correct_origin=True)]
+        except Exception as e:
+            d["samp"] = errname(e)
     return out
 
 
@@ -470,31 +528,70 @@ def run_badparam(case):
         return [errname(e)], ops
 
 
-def run_edit(case):
-    """structural invariants after editing/refining: judged by the oracle only (the op carries the dump)"""
-    kt, _, _, _, kk, _ = _mods()
-    ps = pixel_size(case)
-    tw = track_width_of(case)
-    img = np.array(case["image"], dtype=float)
+def _thr_of(case, env):
     thr = case.get("pixel_threshold")
     if thr is None:
-        thr = float(np.percentile(img, 98))
-    bound = float(np.nextafter(3 * ps, 0))
+        thr = float(np.percentile(np.array(env["image"], dtype=float), 98))
+    return thr
+
+
+def _carry(stated, n):
+    """which width the photon counts of n tracks were stated for, after an operation that only removes, cuts or joins
+    tracks: known only when it was one and the same for every track before"""
+    if stated and all(x is not None and x == stated[0] for x in stated):
+        return [stated[0]] * n
+    return [None] * n
+
+
+def _combine(groups, mix, kk):
+    """one group from the tracks of several kymographs"""
+    if len(groups) == 1:
+        return groups[0]
+    if mix == "interleave":
+        keyed = sorted(((j, i) for i, g in enumerate(groups) for j in range(len(g))))
+        return kk.KymoTrackGroup([groups[i][j] for j, i in keyed])
+    if mix == "sandwich":
+        out = groups[0][:1]
+        for g in groups[1:]:
+            out = out + g
+        return out + groups[0][1:]
+    out = groups[0]
+    for g in groups[1:]:
+        out = out + g
+    return out
+
+
+def run_edit(case):
+    """structural invariants, units and photon counts after editing/refining: judged by the oracle (the first op
+    carries the dump); a few of the photon counts that a step reports for a stated width also go through the model"""
+    kt, _, _, _, kk, _ = _mods()
+    envs = envs_of(case)
+    tw = track_width_of(case)
+    bounds = [float(np.nextafter(3 * pixel_size(e), 0)) for e in envs]
+    # the parameters are refused if one of the source kymographs refuses them (a default width never is)
+    bound = max(bounds) if case.get("track_width") is not None else bounds[0]
+    thr = min(_thr_of(case, e) for e in envs)
     ops = [f"c08.validate {enc_rat(tw)} {enc_rat(bound)} {enc_rat(thr)} {enc_rat(case.get('diffusion') or 0.0)}"]
-    if case.get("tracker") == "lines":
+    lines_tracker = case.get("tracker") == "lines"
+    if lines_tracker:
         ops = ["c08.validate 1/1 0/1 1/1 0/1"]  # track_lines has none of these parameters; the op only carries the dump
     import warnings
 
+    shw = case.get("sample_hw", 2)
     steps = []
     try:
-        kymo = make_kymo(case)
+        kymos = [make_kymo(e) for e in envs]
         with warnings.catch_warnings():
             warnings.simplefilter("ignore")
-            if case.get("tracker") == "lines":
-                group = kt.track_lines(kymo, "red", case["line_width"], case.get("max_lines", 10))
+            if lines_tracker:
+                groups = [kt.track_lines(k, "red", case["line_width"], case.get("max_lines", 10)) for k in kymos]
             else:
-                group = kt.track_greedy(kymo, "red", **greedy_kwargs(case))
-        steps.append({"step": "track", "tracks": dump_group(group)})
+                groups = [kt.track_greedy(k, "red", **greedy_kwargs(case)) for k in kymos]
+            group = _combine(groups, case.get("mix"), kk)
+        # [w]: the photon counts of the track were reported for the stated width w (None inside = the default width)
+        stated = [[case["line_width"] if lines_tracker else case.get("track_width")] for _ in group]
+        src = lambda t: source_of(t, kymos)  # noqa: E731
+        steps.append({"step": "track", "tracks": dump_edit_group(group, kymos, shw), "stated": stated})
         for st in case["program"]:
             name = st[0]
             try:
@@ -502,49 +599,96 @@ def run_edit(case):
                     warnings.simplefilter("ignore")
                     if name == "interpolate":
                         group = kk.KymoTrackGroup([t.interpolate() for t in group])
+                        stated = [None] * len(group)
                     elif name == "split" and len(group):
                         tr = group[st[1] % len(group)]
                         group._split_track(tr, st[2] % (len(tr) + 1), st[3])
+                        stated = _carry(stated, len(group))
                     elif name == "merge" and len(group):
                         a, b = group[st[1] % len(group)], group[st[3] % len(group)]
+                        if src(a) != src(b):
+                            raise ValueError("not-applicable: the two tracks are from different kymographs")
                         group._merge_tracks(a, st[2] % len(a), b, st[4] % len(b))
+                        stated = _carry(stated, len(group))
                     elif name == "filter":
                         group = kt.filter_tracks(group, minimum_length=st[1], minimum_duration=st[2])
+                        stated = _carry(stated, len(group))
                     elif name == "refine_centroid":
                         group = kt.refine_tracks_centroid(group, track_width=st[1], bias_correction=st[2])
+                        stated = [[st[1]] for _ in group]
                     elif name == "refine_gaussian":
                         group = kt.refine_tracks_gaussian(group, window=st[1], refine_missing_frames=st[2], overlap_strategy=st[3])
+                        stated = [None] * len(group)
                     elif name == "remove_rect":
                         group.remove_tracks_in_rect([list(st[1][0]), list(st[1][1])], st[2])
+                        stated = _carry(stated, len(group))
                     elif name == "interpolate_some" and len(group):
                         # only the selected tracks are interpolated, the others keep their localisation as it is
                         sel = _selected(st[1], len(group))
                         group = kk.KymoTrackGroup([t.interpolate() if s_ else t for t, s_ in zip(group, sel)])
+                        stated = [None if s_ else x for x, s_ in zip(stated, sel)]
                     elif name == "refine_centroid_some" and len(group):
                         sel = _selected(st[1], len(group))
                         done = kt.refine_tracks_centroid(group[sel], track_width=st[2], bias_correction=st[3])
                         group = done + group[[not s_ for s_ in sel]]
+                        stated = [[st[2]] for _ in done] + [x for x, s_ in zip(stated, sel) if not s_]
                     elif name == "refine_gaussian_some" and len(group):
                         sel = _selected(st[1], len(group))
                         done = kt.refine_tracks_gaussian(group[sel], window=st[2], refine_missing_frames=st[3], overlap_strategy=st[4])
                         group = done + group[[not s_ for s_ in sel]]
+                        stated = [None] * len(done) + [x for x, s_ in zip(stated, sel) if not s_]
                     elif name == "merge_other" and len(group) >= 2:
-                        # two different tracks, the one that starts first connected to the other
+                        # two different tracks (of the same kymograph), the one that starts first connected to the other
                         i = st[1] % len(group)
-                        j = (i + 1 + st[3] % (len(group) - 1)) % len(group)
-                        a, b = group[i], group[j]
-                        group._merge_tracks(a, st[2] % len(a), b, st[4] % len(b))
+                        a = group[i]
+                        others = [t for t in list(group)[i + 1 :] + list(group)[:i] if src(t) == src(a)]
+                        if others:
+                            b = others[st[3] % len(others)]
+                            group._merge_tracks(a, st[2] % len(a), b, st[4] % len(b))
+                            stated = _carry(stated, len(group))
                     elif name == "merge_ends" and len(group) >= 2:
                         # the usual use: the last point of a track connected to the first point of a later one
                         i = st[1] % len(group)
                         a = group[i]
-                        later = [t for t in group if t is not a and int(t.time_idx[0]) > int(a.time_idx[-1])]
+                        later = [t for t in group if t is not a and src(t) == src(a) and int(t.time_idx[0]) > int(a.time_idx[-1])]
                         if later:
                             group._merge_tracks(a, len(a) - 1, later[st[2] % len(later)], 0)
-                steps.append({"step": name, "tracks": dump_group(group)})
+                            stated = _carry(stated, len(group))
+                    elif name == "regroup" and len(group):
+                        # the same tracks in another order / a subset of them (indexing and `+` of groups)
+                        if st[1] == "reverse":
+                            group, stated = group[::-1], stated[::-1]
+                        else:
+                            sel = _selected(st[2], len(group))
+                            if st[1] == "subset":
+                                group, stated = group[sel], [x for x, s_ in zip(stated, sel) if s_]
+                            else:  # the selected tracks first
+                                group = group[sel] + group[[not s_ for s_ in sel]]
+                                stated = [x for x, s_ in zip(stated, sel) if s_] + [x for x, s_ in zip(stated, sel) if not s_]
+                if len(stated) != len(group):
+                    stated = [None] * len(group)
+                steps.append({"step": name, "tracks": dump_edit_group(group, kymos, shw), "stated": list(stated)})
             except (ValueError, RuntimeError) as e:
                 steps.append({"step": name, "refused": errname(e)})
-        return ["ok " + json.dumps({"steps": steps})], ops
+        ans = ["ok " + json.dumps({"steps": steps})]
+        # a few of the photon counts each step reports for a stated width, through the model's window sum
+        for st in steps:
+            if "tracks" not in st or st["step"] not in ("track", "refine_centroid", "refine_centroid_some"):
+                continue
+            pts = [
+                (k, i)
+                for k, (t, w) in enumerate(zip(st["tracks"], st["stated"]))
+                if w is not None and t["pc"] is not None and t["src"] >= 0
+                for i in range(len(t["t"]))
+                if 0 <= t["t"][i] < len(envs[t["src"]]["image"][0]) and math.isfinite(t["cidx"][i])
+            ]
+            for k, i in pts[:: max(1, len(pts) // 2)][:2]:
+                t = st["tracks"][k]
+                env = envs[t["src"]]
+                col = [int(row[t["t"][i]]) for row in env["image"]]
+                ops.append(f"c08.sumwin {stated_half_width(st['stated'][k][0], env)} {enc_list(col)} {enc_rat(t['cidx'][i])} 1/2")
+                ans.append(str(int(t["pc"][i])))
+        return ans, ops
     except Exception as e:
         return [errname(e)], ops
 
@@ -648,21 +792,22 @@ def agree(case, i, ia, ma):
 def _threshold_below_min(case):
     import scipy.ndimage
 
-    img = np.array(case["image"], dtype=float)
     fw = case.get("filter_width")
-    w = 0.5 if fw is None else fw / (case.get("pixel_size_um") or 1.0)
-    thr = case.get("pixel_threshold")
-    if thr is None:
-        thr = float(np.percentile(img, 98))
-    return thr <= np.min(scipy.ndimage.gaussian_filter(img, [w, 0], output=float)) * (1 + 1e-9) + 1e-12
+    for env in envs_of(case):  # any of the source kymographs of the case may refuse the threshold
+        img = np.array(env["image"], dtype=float)
+        w = 0.5 if fw is None else fw / (env.get("pixel_size_um") or 1.0)
+        thr = _thr_of(case, env)
+        if thr <= np.min(scipy.ndimage.gaussian_filter(img, [w, 0], output=float)) * (1 + 1e-9) + 1e-12:
+            return True
+    return False
 
 
 # ------------------------------------------------------------------ oracle (plain Python from the property text)
 
 
-def well_formed(tracks, n_pixels, n_lines, ps, where):
+def well_formed(tracks, n_pixels, n_lines, ps, where, first=0):
     """strictly increasing integer scan-line indices inside the kymograph, positions inside the image"""
-    for k, t in enumerate(tracks):
+    for k, t in enumerate(tracks, first):
         ts = t["t"]
         if not t.get("t_int", True):
             return f"well-formed: {where} track {k} has non-integer line indices"
@@ -798,24 +943,68 @@ def oracle_edit(case, ia):
     if not ia[0].startswith("ok "):
         return None if ia[0] in ("ValueError", "RuntimeError") else f"editing program raised {ia[0]}"
     d = json.loads(ia[0][3:])
-    img = case["image"]
+    envs = envs_of(case)
+    shw = case.get("sample_hw", 2)
     for st in d["steps"]:
-        if "tracks" in st:
-            r = well_formed(st["tracks"], len(img), len(img[0]), pixel_size(case), "after " + st["step"] + ":")
+        if "tracks" not in st:
+            continue
+        where = "after " + st["step"] + ":"
+        stated = st.get("stated") or [None] * len(st["tracks"])
+        for k, t in enumerate(st["tracks"]):
+            # every track is judged on the kymograph it was tracked on
+            if not 0 <= t.get("src", 0) < len(envs):
+                return f"well-formed: {where} track {k} belongs to none of the {len(envs)} source kymographs of the group"
+            env = envs[t.get("src", 0)]
+            img, ps, lt = env["image"], pixel_size(env), env["line_time"]
+            tag = f"{where} (kymograph {t.get('src', 0)})" if len(envs) > 1 else where
+            r = well_formed([t], len(img), len(img[0]), ps, tag, k)
             if r:
                 return r
-            for k, t in enumerate(st["tracks"]):
-                if not t["t"]:
-                    return f"well-formed: after {st['step']} track {k} is empty"
-            r = units_ok(st["tracks"], pixel_size(case), case["line_time"], "after " + st["step"] + ":")
+            if not t["t"]:
+                return f"well-formed: after {st['step']} track {k} is empty"
+            r = units_ok([t], ps, lt, tag, k)
+            if r:
+                return r
+            r = counts_ok(t, k, img, stated[k], stated_half_width(stated[k][0], env) if stated[k] is not None else None, shw, tag)
             if r:
                 return r
     return None
 
 
-def units_ok(tracks, ps, lt, where):
+def counts_ok(t, k, img, stated, hw, shw, where):
+    """the photon count reported for a point is the sum of the image over the window of the stated half width centred on
+    the pixel containing the point: for the counts a track carries from tracking / centroid refinement with a stated
+    width (half width hw), and for the image sampled along the track with the stated half width shw"""
+    checks = []
+    if stated is not None and t.get("pc") is not None:
+        checks.append(("photon_counts", t["pc"], hw, f"track width {'default' if stated[0] is None else stated[0]}"))
+    if "samp" in t:
+        if not isinstance(t["samp"], list):
+            return f"photon-count: {where} track {k} sample_from_image({shw}) raised {t['samp']}"
+        checks.append((f"sample_from_image({shw})", t["samp"], shw, "as asked"))
+    for what, got, w, why in checks:
+        if len(got) != len(t["t"]):
+            return f"photon-count: {where} track {k} has {len(t['t'])} points and {len(got)} values of {what}"
+        for i, tt in enumerate(t["t"]):
+            col = [row[tt] for row in img]
+            c = t["cidx"][i]
+            if abs((c + 0.5) - round(c + 0.5)) > 1e-6:  # far from a pixel boundary: the double sum decides
+                kpx, alts = math.floor(c + 0.5), [math.floor(c + 0.5)]
+            else:
+                kpx = pixel_of(c)
+                x = Fraction(c) + Fraction(1, 2)
+                alts = [kpx] + ([kpx - 1, kpx + 1] if abs(x - round(x)) < Fraction(1, 10**9) else [])
+            if all(got[i] != window_sum(col, w, kk) for kk in alts):
+                return (
+                    f"photon-count: {where} track {k} point (line {tt}, pixel {c}): {what} reports {got[i]}, the window of "
+                    f"half width {w} ({why}) centred on pixel {kpx} sums to {window_sum(col, w, kpx)}"
+                )
+    return None
+
+
+def units_ok(tracks, ps, lt, where, first=0):
     """times = line indices * line time, positions = pixel coordinates * pixel size, duration = last - first time"""
-    for k, t in enumerate(tracks):
+    for k, t in enumerate(tracks, first):
         if not (len(t["sec"]) == len(t["t"]) and len(t["cidx"]) == len(t["pos"])):
             return f"units: {where} track {k} has {len(t['t'])} line indices, {len(t['sec'])} times, {len(t['cidx'])} pixel coordinates, {len(t['pos'])} positions"
         for i, tt in enumerate(t["t"]):
@@ -926,6 +1115,24 @@ def shrink(case):
                 c = dict(case)
                 c[key] = None
                 yield c
+        if k == "edit" and case.get("more"):
+            more = case["more"]
+            for i in range(len(more)):  # one source kymograph fewer
+                c = dict(case)
+                c["more"] = more[:i] + more[i + 1 :]
+                yield c
+            for i, env in enumerate(more):  # ... or a shorter / narrower one
+                nl_, np_ = len(env["image"][0]), len(env["image"])
+                for img2 in (
+                    [row[: max(nl_ // 2, min_lines)] for row in env["image"]] if nl_ > min_lines else None,
+                    [row[:-1] for row in env["image"]] if nl_ > min_lines else None,
+                    [row[1:] for row in env["image"]] if nl_ > min_lines else None,
+                    env["image"][:-1] if np_ > 6 else None,
+                ):
+                    if img2 is not None:
+                        c = dict(case)
+                        c["more"] = more[:i] + [dict(env, image=img2)] + more[i + 1 :]
+                        yield c
         if k == "edit" and len(case["program"]) > 1:
             for i in range(len(case["program"])):
                 c = dict(case)
@@ -1139,6 +1346,7 @@ def gen_edit(rng):
             c, d = sorted([rng.uniform(0, n_pixels * ps), rng.uniform(0, n_pixels * ps)])
             prog.append(["remove_rect", [[a, c], [b, d]], rng.chance(0.5)])
     case["program"] = prog
+    case["sample_hw"] = rng.randint(0, 4)
     return case
 
 
@@ -1178,6 +1386,7 @@ def gen_edit_mixed(rng):
     case["rect"] = None
     case["adjacency_filter"] = False
     case["program"] = gen_program(rng, case, rng.randint(1, 3))
+    case["sample_hw"] = rng.randint(0, 4)
     return case
 
 
@@ -1193,6 +1402,82 @@ def gen_lines(rng):
     case["line_width"] = rng.uniform(3, 6) * pixel_size(case)
     case["max_lines"] = rng.choice([1, 2, 3, 5, 10, rng.randint(1, 8)])
     case["program"] = gen_program(rng, case, 1)
+    case["sample_hw"] = rng.randint(0, 4)
+    return case
+
+
+def gen_multi(rng, big=False):
+    """tracks of two or three kymographs (each with its own image, size, line time and pixel size; the same calibration
+    unit) in ONE group, as after `tracks1 + tracks2`, then a program of the operations that accept such a group:
+    centroid/Gaussian refinement of the whole group or of some tracks (default and explicit widths), interpolation,
+    filtering, regrouping by indexing and `+`, split/merge within one kymograph"""
+    case = gen_greedy(rng, seg=True, pixel_sizes=PIXEL_SIZES_WIDE)
+    case["op"] = "edit"
+    case["rect"] = None
+    case["adjacency_filter"] = False
+    if rng.chance(0.15) and len(case["image"][0]) >= 3:
+        case["tracker"] = "lines"
+        case["max_lines"] = rng.randint(1, 6)
+    more = []
+    for _ in range(rng.choice([1, 1, 1, 2])):
+        n_pixels = rng.randint(6, 40 if big else 26)
+        n_lines = rng.randint(3, 80 if big else 30)
+        env = {
+            "image": gen_image_seg(rng, n_pixels, n_lines, rng.randint(1, 3), rng.choice([0.05, 0.3, 1.0, 2.5])),
+            "line_time": rng.choice([case["line_time"], case["line_time"], rng.choice(LINE_TIMES)]),
+            "pixel_size_um": None,
+        }
+        if case["pixel_size_um"] is not None:
+            env["pixel_size_um"] = case["pixel_size_um"] * rng.choice([1.0, 1.0, 1.0, 0.5, 2.0, 0.8, 1.25, 1.5])
+        if case.get("kbp"):
+            env["kbp"] = rng.choice([case["kbp"], case["kbp"] * n_pixels / len(case["image"]), 48.502, 10.0])
+        more.append(env)
+    case["more"] = more
+    case["mix"] = rng.choice(["concat", "interleave", "sandwich"])
+    sizes = [pixel_size(e) for e in envs_of(case)]
+    ps_max, ps = max(sizes), pixel_size(case)
+    if case.get("track_width") is not None:
+        case["track_width"] = max(case["track_width"], 3 * ps_max)
+    case["line_width"] = rng.uniform(3, 5) * ps_max
+    lt = case["line_time"]
+
+    def width():
+        # None: the documented default; otherwise 3..9 pixels of one of the kymographs, at least 3 pixels of each
+        if rng.chance(0.2):
+            return None
+        return max((rng.randint(3, 9) - rng.choice([0.0, 0.0, 0.3, 0.7])) * rng.choice(sizes), 3 * ps_max)
+
+    prog = []
+    for _ in range(rng.randint(1, 4)):
+        m = rng.randint(0, 13)
+        bits = rng.randint(0, 65535)
+        if m <= 3:
+            prog.append(["refine_centroid", width(), rng.chance(0.5)])
+        elif m == 4:
+            prog.append(["refine_centroid_some", bits, width(), rng.chance(0.5)])
+        elif m == 5:
+            prog.append(["refine_gaussian", rng.randint(2, 5), rng.chance(0.5), rng.choice(["ignore", "skip", "simultaneous"])])
+        elif m == 6:
+            prog.append(["refine_gaussian_some", bits, rng.randint(2, 5), rng.chance(0.5), rng.choice(["ignore", "skip", "simultaneous"])])
+        elif m == 7:
+            prog.append(["interpolate"] if rng.chance(0.5) else ["interpolate_some", bits])
+        elif m == 8:
+            prog.append(["filter", rng.randint(1, 4), rng.choice([0, lt, 2.5 * lt])])
+        elif m == 9:
+            prog.append(["regroup", rng.choice(["reverse", "subset", "selected_first"]), bits])
+        elif m == 10:
+            prog.append(["split", rng.randint(0, 20), rng.randint(0, 20), rng.randint(1, 3)])
+        elif m == 11:
+            prog.append(["merge_other", rng.randint(0, 20), rng.randint(0, 20), rng.randint(0, 20), rng.randint(0, 20)])
+        elif m == 12:
+            prog.append(["merge_ends", rng.randint(0, 20), rng.randint(0, 20)])
+        else:
+            n_l, n_p = len(case["image"][0]), len(case["image"])
+            a, b = sorted([rng.uniform(0, n_l * lt), rng.uniform(0, n_l * lt)])
+            c, d = sorted([rng.uniform(0, n_p * ps), rng.uniform(0, n_p * ps)])
+            prog.append(["remove_rect", [[a, c], [b, d]], rng.chance(0.5)])
+    case["program"] = prog
+    case["sample_hw"] = rng.randint(0, 4)
     return case
 
 
@@ -1334,6 +1619,12 @@ def cases(tier, rng):
         c = gen_edit_mixed(sub)
         c.update({"stream": "random-edit-mixed", "subseed": i})
         yield c
+    r = rng.fork("c08-multi")
+    for i in range(80 if quick else 700):
+        sub = r.fork(i)
+        c = gen_multi(sub, big=(not quick and sub.chance(0.05)))
+        c.update({"stream": "random-multi-source", "subseed": i})
+        yield c
 
 
 def extra_coverage(results):
@@ -1366,17 +1657,33 @@ def extra_coverage(results):
             if k - c["w"] < 0 or k + c["w"] >= len(c["col"]):
                 clipped += 1
     steps, refused, line_tracked = {}, {}, 0
+    multi_cases = multi_steps = counts_stated = counts_sampled = 0
     for r in results:
         c = r["case"]
         if c["op"] == "edit" and r["impl"][0].startswith("ok "):
             line_tracked += c.get("tracker") == "lines"
+            several = False
             for st in json.loads(r["impl"][0][3:])["steps"]:
                 d = refused if "refused" in st else steps
                 d[st["step"]] = d.get(st["step"], 0) + 1
+                if "tracks" in st:
+                    if len({t.get("src", 0) for t in st["tracks"]}) > 1:
+                        multi_steps += 1
+                        several = True
+                    for t, w in zip(st["tracks"], st.get("stated") or [None] * len(st["tracks"])):
+                        if w is not None and t.get("pc") is not None:
+                            counts_stated += len(t["t"])
+                        if isinstance(t.get("samp"), list):
+                            counts_sampled += len(t["t"])
+            multi_cases += several
     return {
         "edit_steps_done": dict(sorted(steps.items())),
         "edit_steps_refused": dict(sorted(refused.items())),
         "edit_cases_tracked_with_track_lines": line_tracked,
+        "edit_cases_with_tracks_of_several_kymographs_in_one_group": multi_cases,
+        "edit_steps_on_groups_of_several_kymographs": multi_steps,
+        "edit_photon_counts_compared_for_the_width_stated_in_the_call": counts_stated,
+        "edit_points_sampled_from_image_with_a_stated_half_width": counts_sampled,
         "case_kinds": kinds,
         "error_kinds": errs,
         "greedy_image_sizes": sizes,
